@@ -87,3 +87,16 @@ if os.path.exists(sp):
         for k, v in sorted(json.load(open(rr)).items()):
             for c, x in v["checks"].items():
                 print("| %s | %s | %s |" % (k, c, "caught" if x.get("exit") == 1 else "exit %s" % x.get("exit")))
+
+for name, title in (("seed_regression.json", "Seeded changes re-checked on the final machinery (scratch copies)"), ("refactor_regression.json", "Refactorings re-checked on the final machinery (scratch copies; each id = refactoring x half of the twenty checks)")):
+    rp = os.path.join(ROOT, "selftest", name)
+    if os.path.exists(rp):
+        r = json.load(open(rp))
+        runs = sum(len([c for c in v.get("checks", {}) if c != "error"]) for v in r.values())
+        ex = {}
+        for v in r.values():
+            for c, x in v.get("checks", {}).items():
+                if isinstance(x, dict):
+                    ex[x.get("exit")] = ex.get(x.get("exit"), 0) + 1
+        print("\n### %s\n" % title)
+        print("%d entries, %d check runs, exits: %s; entries with a VIOLATION: %d" % (len(r), runs, ", ".join("%s x %d" % (k, v) for k, v in sorted(ex.items(), key=str)), sum(bool(v.get("caught")) for v in r.values())))
